@@ -414,6 +414,27 @@ func sanitizeRelativePath(value string) (string, error) {
 	return cleaned, nil
 }
 
+// isLocalName reports whether a file name taken from a request stays below the
+// directory it is going to be joined onto
+func isLocalName(name string, allowEmpty bool) bool {
+	if name == "" {
+		return allowEmpty
+	}
+	return filepath.IsLocal(name)
+}
+
+// partsAreLocal checks the names carried by the parts of a payload
+func partsAreLocal(parts []sts.Binned) bool {
+	for _, part := range parts {
+		if !isLocalName(part.GetName(), false) ||
+			!isLocalName(part.GetRenamed(), true) ||
+			!isLocalName(part.GetPrev(), true) {
+			return false
+		}
+	}
+	return true
+}
+
 func rootRelativePath(relPath string) string {
 	if relPath == "" {
 		return "."
@@ -484,6 +505,11 @@ func (s *Server) routeValidate(w http.ResponseWriter, r *http.Request) {
 		if sep != "" {
 			f.Name = filepath.Join(strings.Split(f.Name, sep)...)
 		}
+		if !isLocalName(f.Name, false) {
+			log.Error("STS validate request rejected: file name outside the source's directories; source=", source)
+			w.WriteHeader(http.StatusBadRequest)
+			return
+		}
 		respMap[f.Name] = gateKeeper.GetFileStatus(f.GetName(), f.GetStarted())
 	}
 	respJSON, _ := json.Marshal(respMap)
@@ -535,6 +561,11 @@ func (s *Server) routeData(w http.ResponseWriter, r *http.Request) {
 		return
 	}
 	parts := decoder.GetParts()
+	if !partsAreLocal(parts) {
+		log.Error("STS data request rejected: file name outside the source's directories; source=", source)
+		w.WriteHeader(http.StatusBadRequest)
+		return
+	}
 	gateKeeper := s.getGateKeeper(r)
 	gateKeeper.Prepare(parts)
 	index := 0
@@ -611,6 +642,11 @@ func (s *Server) routeDataRecovery(w http.ResponseWriter, r *http.Request) {
 	}
 	gateKeeper := s.getGateKeeper(r)
 	parts := decoder.GetParts()
+	if !partsAreLocal(parts) {
+		log.Error("STS data-recovery request rejected: file name outside the source's directories; source=", source)
+		w.WriteHeader(http.StatusBadRequest)
+		return
+	}
 	n := gateKeeper.Received(parts)
 	log.Debug("STS data-recovery request complete:", "source=", source, "partsReceived=", n)
 	w.Header().Add(HeaderPartCount, strconv.Itoa(n))
